@@ -38,9 +38,13 @@
 #include "verif_rc.hpp"
 
 #include <atomic>
+#include <fcntl.h>
 #include <memory>
 #include <mutex>
+#include <omp.h>
+#include <signal.h>
 #include <thread>
+#include <unistd.h>
 
 using vr::VCase;
 using vr::VProp;
@@ -48,6 +52,205 @@ using vr::VResult;
 using vr::fmt;
 
 namespace {
+
+// ================================================================== crash net
+// A broken container can corrupt memory before the ownership model notices
+// (e.g. a queue whose lock admits two holders underflows its size).  A fatal
+// signal inside an oracle is therefore turned into a reported failure of the
+// current case: the (unshrunk) case is written without using the heap, a
+// partial evidence file naming it is written, and the process exits 1.  In
+// --replay mode the crash is reported as REPLAY-FAIL.
+bool g_replay = false;
+
+size_t put_s(char *b, size_t pos, size_t cap, const char *t) {
+  while (*t && pos + 1 < cap)
+    b[pos++] = *t++;
+  return pos;
+}
+size_t put_i(char *b, size_t pos, size_t cap, long long v) {
+  char tmp[24];
+  int n = 0;
+  unsigned long long u = v < 0 ? (unsigned long long)(-(v + 1)) + 1 : (unsigned long long)v;
+  do {
+    tmp[n++] = (char)('0' + u % 10);
+    u /= 10;
+  } while (u);
+  if (v < 0 && pos + 1 < cap)
+    b[pos++] = '-';
+  while (n > 0 && pos + 1 < cap)
+    b[pos++] = tmp[--n];
+  return pos;
+}
+
+// rendered copy of the current case in static storage (the heap - including the
+// VCase itself - may be overwritten by the time the handler runs)
+char g_text[1 << 17];
+size_t g_text_len = 0;
+char g_prop[96];
+unsigned long long g_hash = 0;
+bool g_in_case = false;
+
+void render_case(const VCase &c) {
+  size_t n = put_s(g_text, 0, sizeof g_text, "prop ");
+  n = put_s(g_text, n, sizeof g_text, c.prop.c_str());
+  n = put_s(g_text, n, sizeof g_text, "\n");
+  for (auto &f : c.ii) {
+    n = put_s(g_text, n, sizeof g_text, "i ");
+    n = put_s(g_text, n, sizeof g_text, f.first.c_str());
+    n = put_s(g_text, n, sizeof g_text, " ");
+    n = put_i(g_text, n, sizeof g_text, (long long)f.second.size());
+    for (auto v : f.second) {
+      n = put_s(g_text, n, sizeof g_text, " ");
+      n = put_i(g_text, n, sizeof g_text, v);
+    }
+    n = put_s(g_text, n, sizeof g_text, "\n");
+  }
+  g_text_len = n;
+  const size_t m = put_s(g_prop, 0, sizeof g_prop, c.prop.c_str());
+  g_prop[m] = 0;
+  g_hash = c.hash();
+}
+
+// failures that the oracles of this process already reported (vmain writes the
+// last failing case of a sub-check to <faildir>/C08-<prop>-<hash as %016x>.case)
+struct PriorFail {
+  char prop[96];
+  unsigned long long hash;
+  char msg[512];
+};
+PriorFail g_prior[8];
+int g_nprior = 0;
+
+void remember_failure(const VCase &c, const std::string &msg) {
+  int k = -1;
+  for (int i = 0; i < g_nprior; ++i)
+    if (c.prop == g_prior[i].prop)
+      k = i;
+  if (k < 0 && g_nprior < 8)
+    k = g_nprior++;
+  if (k < 0)
+    return;
+  snprintf(g_prior[k].prop, sizeof g_prior[k].prop, "%s", c.prop.c_str());
+  g_prior[k].hash = c.hash();
+  size_t m = 0;
+  for (char ch : msg) {
+    if (m + 1 >= sizeof g_prior[k].msg)
+      break;
+    g_prior[k].msg[m++] = (ch == '"' || ch == '\\' || (unsigned char)ch < 0x20) ? ' ' : ch;
+  }
+  g_prior[k].msg[m] = 0;
+}
+
+size_t put_hex16(char *b, size_t pos, size_t cap, unsigned long long v) {
+  for (int k = 15; k >= 0 && pos + 1 < cap; --k)
+    b[pos++] = "0123456789abcdef"[(v >> (4 * k)) & 15];
+  return pos;
+}
+
+void crash_handler(int sig) {
+  static char buf[1 << 14];
+  static char path[1024];
+  const char *what = sig == SIGSEGV ? "SIGSEGV" : sig == SIGBUS ? "SIGBUS"
+                     : sig == SIGABRT ? "SIGABRT" : sig == SIGFPE ? "SIGFPE" : "signal";
+  if (g_replay || !g_in_case) {
+    size_t n = put_s(buf, 0, sizeof buf, g_in_case ? "REPLAY-FAIL crash: fatal " : "CRASH outside an oracle: fatal ");
+    n = put_s(buf, n, sizeof buf, what);
+    n = put_s(buf, n, sizeof buf, " inside the container code under this schedule (memory corrupted by a double hand-out?)\n");
+    (void)!write(1, buf, n);
+    _exit(g_in_case ? 1 : 70);
+  }
+  const char *fd = getenv("VERIF_FAILDIR");
+  size_t m = put_s(path, 0, sizeof path, fd ? fd : ".");
+  m = put_s(path, m, sizeof path, "/C08-");
+  m = put_s(path, m, sizeof path, g_prop);
+  m = put_s(path, m, sizeof path, "-crash-");
+  m = put_i(path, m, sizeof path, (long long)(g_hash >> 1));
+  m = put_s(path, m, sizeof path, ".case");
+  path[m] = 0;
+  int f = open(path, O_WRONLY | O_CREAT | O_TRUNC, 0644);
+  if (f >= 0) {
+    (void)!write(f, g_text, g_text_len);
+    size_t n = put_s(buf, 0, sizeof buf, "# fatal ");
+    n = put_s(buf, n, sizeof buf, what);
+    n = put_s(buf, n, sizeof buf, " inside the container code (case not shrunk)\n");
+    (void)!write(f, buf, n);
+    close(f);
+  }
+  size_t n = put_s(buf, 0, sizeof buf, "FAILCASE ");
+  n = put_s(buf, n, sizeof buf, g_prop);
+  n = put_s(buf, n, sizeof buf, " ");
+  n = put_s(buf, n, sizeof buf, path);
+  n = put_s(buf, n, sizeof buf, "\n");
+  (void)!write(1, buf, n);
+  if (const char *out = getenv("VERIF_OUT")) {
+    n = put_s(buf, 0, sizeof buf, "{\"property_id\":\"C08\",\"props\":{\"");
+    n = put_s(buf, n, sizeof buf, g_prop);
+    n = put_s(buf, n, sizeof buf, "\":{\"evaluations\":1,\"nontrivial\":0,\"distinct_nontrivial\":0,"
+              "\"known_excluded\":0,\"wall_s\":0,\"failed\":true,\"fail_msg\":\"fatal ");
+    n = put_s(buf, n, sizeof buf, what);
+    n = put_s(buf, n, sizeof buf, " inside the container code under a generated schedule (case not shrunk; "
+              "evidence of the other sub-checks of this shard is lost)\",\"fail_file\":\"");
+    n = put_s(buf, n, sizeof buf, path);
+    n = put_s(buf, n, sizeof buf, "\",\"rule\":\"\",\"labels\":{},\"starved\":[],\"samples\":[],"
+              "\"distinct_hashes\":[]}");
+    for (int i = 0; i < g_nprior; ++i) {
+      bool same = true;
+      for (size_t k = 0; g_prior[i].prop[k] || g_prop[k]; ++k)
+        if (g_prior[i].prop[k] != g_prop[k]) {
+          same = false;
+          break;
+        }
+      if (same)
+        continue;
+      n = put_s(buf, n, sizeof buf, ",\"");
+      n = put_s(buf, n, sizeof buf, g_prior[i].prop);
+      n = put_s(buf, n, sizeof buf, "\":{\"evaluations\":1,\"nontrivial\":0,\"distinct_nontrivial\":0,"
+                "\"known_excluded\":0,\"wall_s\":0,\"failed\":true,\"fail_msg\":\"");
+      n = put_s(buf, n, sizeof buf, g_prior[i].msg);
+      n = put_s(buf, n, sizeof buf, "\",\"fail_file\":\"");
+      n = put_s(buf, n, sizeof buf, fd ? fd : ".");
+      n = put_s(buf, n, sizeof buf, "/C08-");
+      n = put_s(buf, n, sizeof buf, g_prior[i].prop);
+      n = put_s(buf, n, sizeof buf, "-");
+      n = put_hex16(buf, n, sizeof buf, g_prior[i].hash);
+      n = put_s(buf, n, sizeof buf, ".case\",\"rule\":\"\",\"labels\":{},\"starved\":[],\"samples\":[],"
+                "\"distinct_hashes\":[]}");
+    }
+    n = put_s(buf, n, sizeof buf, "}}\n");
+    f = open(out, O_WRONLY | O_CREAT | O_TRUNC, 0644);
+    if (f >= 0) {
+      (void)!write(f, buf, n);
+      close(f);
+    }
+  }
+  _exit(1);
+}
+
+void install_crash_net() {
+  static char altstack[1 << 16];
+  stack_t ss;
+  ss.ss_sp = altstack;
+  ss.ss_size = sizeof altstack;
+  ss.ss_flags = 0;
+  sigaltstack(&ss, nullptr);
+  struct sigaction sa;
+  memset(&sa, 0, sizeof sa);
+  sa.sa_handler = crash_handler;
+  sa.sa_flags = SA_ONSTACK | SA_RESETHAND;
+  sigemptyset(&sa.sa_mask);
+  sigaction(SIGSEGV, &sa, nullptr);
+  sigaction(SIGBUS, &sa, nullptr);
+  sigaction(SIGABRT, &sa, nullptr);
+  sigaction(SIGFPE, &sa, nullptr);
+}
+
+struct CaseScope {
+  CaseScope(const VCase &c) {
+    render_case(c);
+    g_in_case = true;
+  }
+  ~CaseScope() { g_in_case = false; }
+};
 
 // ===================================================================== engine
 enum { ENG_FIBER = 0, ENG_THREAD = 1, ENG_FREE = 2 };
@@ -652,6 +855,7 @@ void pool_labels(VResult &r, const PoolSim &S) {
 }
 
 VResult o_pool(const VCase &c) {
+  CaseScope scope(c);
   VResult r;
   PoolSim S(c, ENG_FIBER);
   S.run(to_int(c.iv("choices")));
@@ -1155,6 +1359,7 @@ void task_labels(VResult &r, const TaskSim &S) {
 }
 
 VResult o_tasks(const VCase &c) {
+  CaseScope scope(c);
   VResult r;
   TaskSim S(c, ENG_FIBER);
   S.run(to_int(c.iv("choices")));
@@ -1512,6 +1717,7 @@ VCase gen_atom_case() {
 }
 
 VResult o_atoms(const VCase &c) {
+  CaseScope scope(c);
   VResult r;
   AtomSim S(c, ENG_FIBER);
   S.run(to_int(c.iv("choices")));
@@ -1804,15 +2010,28 @@ struct MemSim {
 VCase gen_mem_case() {
   VCase c;
   const int nth = (int)vr::irange(2, 3);
-  const int size = (int)vr::irange(2, 6);
+  const int size = (int)vr::irange(2, 8);
   c.I("nth", nth);
   c.I("size", size);
-  c.I("quota", gen_quota(nth, size));
+  // add_photons may need a second buffer: prefer quotas >= 2
+  std::vector<int64_t> q(nth, 0);
+  int left = size;
+  for (int t = 0; t < nth && left >= 2; ++t) {
+    q[t] = 2;
+    left -= 2;
+  }
+  while (left > 0 && vr::coin(0.8)) {
+    q[vr::irange(0, nth - 1)] += 1;
+    --left;
+  }
+  if (size < 2 * nth && left > 0)
+    q[nth - 1] += 1;
+  c.I("quota", q);
   for (int t = 0; t < nth; ++t) {
-    const int n = (int)vr::irange(1, 14);
+    const int n = (int)vr::irange(1, 16);
     std::vector<int64_t> p;
     for (int k = 0; k < n; ++k) {
-      p.push_back(vr::weighted({4, 5, 3, 1}));
+      p.push_back(k == 0 ? M_GET : vr::weighted({3, 6, 3, 1}));
       p.push_back(vr::irange(0, 999));
       p.push_back(vr::irange(0, 9999));
     }
@@ -1823,6 +2042,7 @@ VCase gen_mem_case() {
 }
 
 VResult o_mem(const VCase &c) {
+  CaseScope scope(c);
   VResult r;
   MemSim S(c, ENG_FIBER);
   S.run(to_int(c.iv("choices")));
@@ -1854,6 +2074,7 @@ VCase gen_agree_case() {
 }
 
 VResult o_agree(const VCase &c) {
+  CaseScope scope(c);
   VResult r;
   const std::vector<int> ch = to_int(c.iv("choices"));
   std::vector<int64_t> tr[2];
@@ -1901,23 +2122,30 @@ VResult o_agree(const VCase &c) {
 // sampled OS schedules (reported separately): the same programs, the same
 // ownership model (kept in atomics), only the checks that do not need to know
 // the interleaving
+// repetitions per case: part of the case, so a replay repeats as often
+int free_reps() {
+  const char *t = getenv("VERIF_TIER");
+  return (t && std::string(t) == "thorough") ? 40 : 12;
+}
 VCase gen_free_pool_case() {
   VCase c = gen_pool_case(4, 25);
   c.I("jitter", vr::irange(1, 1000000));
+  c.I("reps", free_reps());
   return c;
 }
 VCase gen_free_task_case() {
   VCase c = gen_task_case(4, 20);
   c.I("jitter", vr::irange(1, 1000000));
+  c.I("reps", free_reps());
   return c;
 }
 
-const int FREE_REPS = 12;
-
 VResult o_free_pool(const VCase &c) {
+  CaseScope scope(c);
   VResult r;
   uint64_t ops = 0;
   bool cap = false;
+  const int FREE_REPS = (int)c.i("reps");
   for (int rep = 0; rep < FREE_REPS && r.ok; ++rep) {
     cmi_verif_jitter_seed() = (uint_least64_t)c.i("jitter") * 1000 + rep;
     PoolSim S(c, ENG_FREE);
@@ -1939,8 +2167,10 @@ VResult o_free_pool(const VCase &c) {
 }
 
 VResult o_free_tasks(const VCase &c) {
+  CaseScope scope(c);
   VResult r;
   uint64_t ops = 0, handed = 0, contention = 0;
+  const int FREE_REPS = (int)c.i("reps");
   for (int rep = 0; rep < FREE_REPS && r.ok; ++rep) {
     cmi_verif_jitter_seed() = (uint_least64_t)c.i("jitter") * 1000 + rep;
     TaskSim S(c, ENG_FREE);
@@ -1963,6 +2193,11 @@ VResult o_free_tasks(const VCase &c) {
 } // namespace
 
 int main(int argc, char **argv) {
+  // TaskQueue::add_tasks contains an OpenMP loop: one thread is enough and
+  // keeps idle OpenMP workers from spinning
+  omp_set_num_threads(1);
+  g_replay = argc >= 2 && std::string(argv[1]) == "--replay";
+  install_crash_net();
   std::vector<VProp> props;
   props.push_back(
       {"pool_slots", 60000, []() { return gen_pool_case(4, 25); }, o_pool,
@@ -2019,15 +2254,28 @@ int main(int argc, char **argv) {
        "them inside a call.",
        {}});
   props.push_back(
-      {"real_threads_pool", 400, gen_free_pool_case, o_free_pool,
+      {"real_threads_pool", 150, gen_free_pool_case, o_free_pool,
        "SAMPLED schedules: the pool programs on 2-4 real unsynchronised "
        "std::threads with seeded jitter at every atomic operation, 12 "
-       "repetitions per case; ownership model kept in atomics.",
+       "(thorough: 40) repetitions per case; ownership model kept in atomics.",
        {}});
   props.push_back(
-      {"real_threads_tasks", 400, gen_free_task_case, o_free_tasks,
+      {"real_threads_tasks", 150, gen_free_task_case, o_free_tasks,
        "SAMPLED schedules: the task/queue programs on 2-4 real unsynchronised "
-       "std::threads with seeded jitter, 12 repetitions per case.",
+       "std::threads with seeded jitter, 12 (thorough: 40) repetitions per "
+       "case.",
        {}});
+  for (auto &p : props) {
+    auto inner = p.oracle;
+    p.oracle = [inner](const VCase &c) {
+      VResult r = inner(c);
+      if (!r.ok)
+        remember_failure(c, r.msg);
+      return r;
+    };
+  }
+  // line-buffered stdout in static storage: FAILCASE lines survive a crash
+  static char outbuf[1 << 14];
+  setvbuf(stdout, outbuf, _IOLBF, sizeof outbuf);
   return vr::vmain(argc, argv, "C08", props);
 }
